@@ -945,6 +945,8 @@ func runC05(p *Program, r *Report) {
 	r.Rule("R05d", "LAYOUT: in verification (with remembering), block application and undo, positions are used only in the coordinate system (tree layout vs TotalRows layout) that the accompanying forest height denotes")
 	nPair, nSink := reportOrderEvents(p, r, or, orderRules{pair: "R05a", sink: "R05a", coord: "R05d"})
 	r.Floor("R05a", "pairing and requires-sorted sites reached from the block-application entries", nPair+nSink, 14)
+	r.Rule("R05h", "NOT-THE-LAST-ITERATION-ONLY: a boolean that a function of the block-application and verification closure returns after a loop is not a flag that every iteration overwrites with what it found (a predicate over a list must not forget the earlier elements)")
+	checkNotLastIterationOnly(p, r, "R05h", []string{"(*MapPollard).Modify", "(*Pollard).Modify", "(*Stump).Update", "Verify", "(*Pollard).Verify", "(*MapPollard).Verify", "(*MapPollard).VerifyPartialProof"}, 3)
 
 	// R05b: field-read scan over the reach of both Modify implementations
 	n := 0
